@@ -372,6 +372,8 @@ def rule_capacity(prog, res):
             if sorted(c.rsplit("::", 1)[-1] for c in calls if c) == ["chars", "collect"] and not f.loops():
                 ok = True
                 d = "= chars().collect() (uses from_iter)"
+        if not ok and not tps:
+            ok, d = bulk_prefix_writer(prog, f)
         res.ob("X-cap", "%s | keeps the longest prefix of whole characters that fits (stops at the first refusal)" % path, ok, d, f.loc, sample=d)
     # From<&str> for Df88591String = value.chars().collect()
     f = prog.fn("<util::Df88591String<N> as core::convert::From<&str>>::from")
@@ -416,8 +418,16 @@ def rule_utf8_writers(prog, res):
                   (ty.get("k") == "ref" and ty["to"].get("k") == "adt" and ty["to"]["path"] == "util::array_string::ArrayString")]
             if lt:
                 writers.add(p)
-    res.ob("X-utf8", "ArrayString | only try_push takes the byte vector mutably", writers <= {AS + "::try_push"}, str(sorted(writers)),
-           sample=sorted(writers))
+    others = sorted(writers - {AS + "::try_push"})
+    bulk = {}
+    for p in others:
+        bulk[p] = bulk_prefix_writer(prog, prog.fns[p])
+        if bulk[p][0]:
+            res.fn(prog.fns[p])
+            res.ob("X-utf8", "%s | bulk copy of a &str prefix cut at a character boundary (valid UTF-8 by construction)" % p, True, bulk[p][1], prog.fns[p].loc)
+    bad = [p for p in others if not bulk[p][0]]
+    res.ob("X-utf8", "ArrayString | only try_push takes the byte vector mutably", not bad,
+           "; ".join("%s (%s)" % (p, bulk[p][1]) for p in bad) or str(sorted(writers)), sample=sorted(writers))
     allowed_builders = {AS + "::new", "<util::array_string::ArrayString<N> as core::default::Default>::default",
                         "<util::array_string::ArrayString<N> as core::clone::Clone>::clone"}
     res.ob("X-utf8", "ArrayString | values are built only empty (new/default) or by clone", builders <= allowed_builders, str(sorted(builders)))
@@ -621,3 +631,128 @@ def rule_witness_privacy(prog, res):
         pushes = [fa.call_args(b) for b, t in f.calls() if callee_of(t) == "tinyvec::ArrayVec::<A>::push"]
         ok = len(pushes) == 1 and pushes[0][1].op == "call" and pushes[0][1].args[0] == CHARS + "::from_char"
         res.ob("X-map", "try_push | stores from_char(ch)", ok, "", f.loc)
+
+
+# ------------------------------------------------------------------ bulk prefix copy (a second, type-justified way of writing an ArrayString)
+STR_LEN = "core::str::<impl str>::len"
+STR_BYTES = "core::str::<impl str>::as_bytes"
+STR_BOUNDARY = "core::str::<impl str>::is_char_boundary"
+EXTEND = "tinyvec::ArrayVec::<A>::extend_from_slice"
+_BULK = {}
+
+
+def bulk_prefix_writer(prog, f):
+    """Recognises
+            let mut end = value.len().min(N);  while !value.is_char_boundary(end) { end -= 1; }
+            let mut s = ArrayString::<N>::new();  s.vec.extend_from_slice(&value.as_bytes()[..end]);  s
+    (value: &str parameter, N the capacity).  Every clause is checked on the MIR terms:
+      E is a loop-header phi with operands min(len(value), N) from outside and E - 1 from inside; the loop's only branch is on
+      is_char_boundary(value, E): true leaves, false decrements; the copy is the only use of the byte vector, into a fresh ArrayString, of
+      as_bytes(value)[..E] with the very same E; nothing else in the function can write, index, assert or loop.
+    Consequences (the lemma the callers rely on): E is the largest character boundary <= min(len, N) (0 and len are boundaries), so the bytes
+    copied are the longest prefix of whole characters that fits, they are valid UTF-8 (a prefix of a str cut at a boundary), E >= 1 where it is
+    decremented, E <= len(value) where it indexes, E <= N where it is appended to an empty vector of capacity N, and the loop ends after at
+    most min(len, N) steps.   -> (ok, detail)"""
+    key = (id(prog), f.path)
+    if key in _BULK:
+        return _BULK[key]
+    r = _bulk_prefix_writer(prog, f)
+    _BULK[key] = r
+    return r
+
+
+def _bulk_prefix_writer(prog, f):
+    from framing_slices import as_slice, strip_ref
+    fa = FA(f, prog)
+    names = fa.names
+    calls = list(f.calls())
+    by = {}
+    for b, t in calls:
+        by.setdefault(callee_of(t), []).append(b)
+    allowed = {STR_LEN, STR_BYTES, STR_BOUNDARY, EXTEND, AS + "::new", "core::cmp::Ord::min", "core::cmp::min",
+               "core::slice::index::<impl core::ops::Index<I> for [T]>::index"}
+    extra = [c for c in by if c not in allowed and not (c or "").startswith("core::cmp::impls::<impl core::cmp::Ord for usize>::min")]
+    if extra:
+        return False, "other calls: %s" % extra[:3]
+    if any(len(by.get(c, [])) != 1 for c in (STR_BOUNDARY, EXTEND, AS + "::new", STR_BYTES)):
+        return False, "expected exactly one is_char_boundary / extend_from_slice / new / as_bytes call"
+    loops = f.loops()
+    if len(loops) != 1:
+        return False, "expected exactly one loop, found %d" % len(loops)
+    h, body = list(loops.items())[0]
+    value = strip_ref(fa.start_val(1, 0)) if False else None
+    xb = by[EXTEND][0]
+    xargs = fa.call_args(xb)
+    sl = as_slice(xargs[1])
+    if sl is None or sl[3] != "RangeTo":
+        return False, "the appended slice is not base[..E]: %s" % show(xargs[1], names)
+    base, _lo, E, _k = sl
+    if not (base.op == "call" and base.args[0] == STR_BYTES):
+        return False, "the appended bytes are not value.as_bytes()[..E]"
+    v = base.args[1][0]
+    sv = strip_ref(v)
+    while sv.op in ("mem", "memval"):
+        sv = strip_ref(sv.args[0])
+    if sv.op != "arg":
+        return False, "the source is not the &str parameter"
+    if E.op != "phi" or E.args[2] != h:
+        return False, "E is not the loop-header variable: %s" % show(E, names)
+    ops = list(fa.phi_operands(E))
+    inits = [x for pb, x in ops if pb not in body]
+    backs = [x for pb, x in ops if pb in body]
+    one = lambda t_: is_const(t_) and const_val(t_) == 1
+    if not (backs and all(x.op == "bin" and x.args[0] == "Sub" and x.args[1] is E and one(x.args[2]) for x in backs)):
+        return False, "E is not decremented by exactly 1 on the back edge"
+    def same_str(a):
+        a = strip_ref(a)
+        while a.op in ("mem", "memval"):
+            a = strip_ref(a.args[0])
+        return a is sv
+    def is_min(x):
+        if not (x.op == "call" and (x.args[0] in ("core::cmp::Ord::min", "core::cmp::min") or "Ord for usize>::min" in x.args[0]) and len(x.args[1]) == 2):
+            return False
+        a, b_ = x.args[1]
+        ln = [y for y in (a, b_) if (y.op == "call" and y.args[0] == STR_LEN and same_str(y.args[1][0])) or (y.op == "len" and same_str(y.args[0]))]
+        cap = [y for y in (a, b_) if y not in ln]
+        # the other operand is the capacity: the const generic N of ArrayString<N> (an opaque constant in generic MIR)
+        return len(ln) == 1 and len(cap) == 1 and cap[0].op == "opaque_const" and "N" in [str(z) for z in cap[0].args]
+    if not (len(inits) == 1 and is_min(inits[0])):
+        return False, "E does not start at min(value.len(), N): %s" % [show(x, names) for x in inits]
+    # the loop's only branch: is_char_boundary(value, E)
+    bb = by[STR_BOUNDARY][0]
+    bargs = fa.call_args(bb)
+    if not (same_str(bargs[0]) and bargs[1] is E and bb in body):
+        return False, "the boundary test is not is_char_boundary(value, E) inside the loop"
+    bt = fa.call_term(bb)
+    sw = [x for x in sorted(body) if f.term(x)["k"] == "switch"]
+    if len(sw) != 1 or fa.op_term(f.term(sw[0])["discr"], (sw[0], len(f.blocks[sw[0]]["stmts"]))) is not bt:
+        return False, "the loop has another branch"
+    for s_ in f.succ(sw[0]):
+        eg = fa.edge_guard(sw[0], s_)
+        truth = any((g[1] == "eq" and g[2] == 1) or (g[1] == "ne" and 0 in g[2]) for g in eg)
+        if truth != (s_ not in body):
+            return False, "the loop does not leave exactly when the boundary test is true"
+    # the receiver: the vector of a fresh ArrayString
+    recv = xargs[0]
+    r = recv
+    while r.op in ("ref", "mem", "memval"):
+        r = r.args[0]
+    fresh = False
+    if r.op == "pf" and r.args[1] == 0 and r.args[0].op == "loc":
+        L = r.args[0].args[1]
+        ds = [d for d in fa.defs(L) if d[2] != "borrow"]
+        if len(ds) == 1:
+            val = fa.defterm(L, ds[0][0], ds[0][1], ds[0][2])
+            # the only definition is the constructor call, and the only borrow of the vector is the one handed to extend_from_slice
+            nb = [d for d in fa.defs(L) if d[2] == "borrow"]
+            fresh = val.op == "call" and val.args[0] == AS + "::new" and len(nb) <= 1
+    if not fresh:
+        return False, "the receiver is not the byte vector of a fresh ArrayString::new(): %s" % show(recv, names)
+    # no other panic-capable construct: the only Assert is the decrement's overflow check
+    for b in sorted(f.reachable()):
+        t = f.term(b)
+        if t["k"] == "assert":
+            o = [fa.op_term(x, (b, len(f.blocks[b]["stmts"]))) for x in t["ops"]]
+            if not (t["kind"] == "Overflow:Sub" and o[0] is E and one(o[1]) and b in body):
+                return False, "another assertion: %s" % t["kind"]
+    return True, "E = largest boundary <= min(len(value), N); appends value.as_bytes()[..E] to a fresh ArrayString"
